@@ -32,20 +32,26 @@ CHECKS = {
          'Trusted: translators gen_grammar.py, gen_jaroots.py; Unify.v; Coq kernel. Domain: categories whose atoms carry feature triples.',
          'Coq proof over translated grammar + differential cases + schema oracle', 'DESIGN.md §4 C04'),
  'C07': ('Coq models with independent decoders and round-trip theorems for conll (dependency column: one root, non-head child attaches to head child, heads inside the parent span), json, auto_extended '
-         '(field and text level), deriv (interval-stack reader, structural part), batch numbering; the read-back theorems of auto/ptb/ja/xml/jigg_xml are C08/C20/C15. html and prolog have no Coq model: '
-         'they are covered by independent Python decoders only (stated). Oracle: Python decoders for all eleven formats cross-compared with the encoded tree on every run.',
-         'Trusted: Fmt*.v models (exact-string correspondence with the real encoders), fmt_dec.py decoders, lxml/json/html.parser libraries. PARTIAL for html and prolog (oracle only) and for the raw-text layer of deriv.',
+         '(field and text level), deriv (interval-stack reader, structural and raw-text level), prolog for English and Japanese (lexer + term reader of the ccg(k, ...) clauses and of the whole document, '
+         'functor tables read from the generated GenTables.v), html (MathML element tree and its printed text, regex scanner of the category text, html.escape), batch numbering; the read-back theorems of '
+         'auto/ptb/ja/xml/jigg_xml are C08/C20/C15. 33 theorems incl. one refuted statement with witness (a newline inside a feature is not printed with brackets by html). Oracle: Python decoders for '
+         'all eleven formats cross-compared with the encoded tree on every run.',
+         'Trusted: Fmt*.v models (exact-string correspondence with the real encoders, whole documents included), fmt_dec.py decoders, lxml/json/html.parser libraries. PARTIAL: the html page around the <math> '
+         'elements and the prolog header are tied by exact-string correspondence only; str.lower is modelled on A-Z (other cased category names are skipped and counted).',
          'Coq codec proofs + exact-output correspondence + eleven independent decoders', 'DESIGN.md §4 C07'),
  'C08': ('Character-level Coq model of auto_of, denormalize, conll fragments and the cursor reader _AutoLineReader (fuel = line length): read_auto(print_auto t) = canon t for every well-formed tree, '
          'reprint identity, CoNLL fragments concatenate to the AUTO line, _fix inert on printed categories (tables generated from the source). Exact correspondence with the real printer/reader through '
          'temp files incl. a malformed stream; independent round-trip oracle.',
          'Trusted: Auto.v model, gen_auto.py/gen_tables.py, Category.parse model of C05, file/line splitting of Python.', 'Coq proof (cursor reader, induction on trees) + exact correspondence + oracle', 'DESIGN.md §4 C08'),
- 'C11': ('Theorems: chunks concatenate back to the batch and results read in task order equal map parse batch; the memo layer (category table + rule cache) as a state machine keeps every cached entry '
-         'equal to what the pure grammar returns now, ids are never reassigned, decoded answers are history independent; the implementation-level search is invariant under bi-unique renaming of '
-         'category handles (Forall2 simulation: related reachable states, position-wise related results with equal scores); failures are local. PARTIAL: the composition of memo and search into one '
-         'end-to-end statement is conditional, the type-check-first part has no theorem (oracle only), OS scheduling/pickling of multiprocessing is exercised, not proved. Oracle: real depccg.parsing.run '
-         'with forking Pool, permutations/rotations/subsets/warming, failing sentences, malformed shapes with zero rule calls.',
-         'Trusted: Glue.v/GlueMemo.v/AStarEquiv.v models (memo replay of logged callbacks, chunks exact), decy + driver to run the real code.', 'Coq simulation + state-machine invariants + differential batch oracle', 'DESIGN.md §4 C11'),
+ 'C11': ('55 theorems: chunks concatenate back to the batch and results read in task order equal map parse batch; the wrapper parsing.run rejects ill-shaped input before the parser is applied and returns the same '
+         'list for every max_chunk_size and processes >= 1; the memo layer (category table + rule cache) as a state machine keeps every cached entry equal to what the pure grammar returns now, ids are '
+         'never reassigned; the search reading the memo incrementally IS the category-level search from every admissible history (both directions), so the outcome of a sentence - status, categories, '
+         'rule indices, head flags, scores - is the same after any history, and a batch equals parsing each sentence alone (unconditional, iff); under a category-blind pop policy the batch is a '
+         'function of the batch; failures are local. PARTIAL: that std::priority_queue is a category-blind policy is read off operator< rather than derived; fork/pickling/completion order of '
+         'multiprocessing are specified and exercised (real Pool), not proved. Oracle: real depccg.parsing.run with forking Pool, permutations/rotations/subsets/warming, failing sentences '
+         '(length, step budget shared across a call, dead tags), malformed shapes with zero rule calls.',
+         'Trusted: Glue.v/GlueMemo*.v/AStarEquiv*.v models (memo replay of logged callbacks, chunks exact, wrapper correspondence against the real run() with a probe parser), decy + driver to run the real code '
+         '(the driver copies the config struct back after every sentence, as parsing.pyx shares one struct per call).', 'Coq refinement (memo search = category search) + state-machine invariants + differential batch oracle', 'DESIGN.md §4 C11'),
  'C13': ('Coq theorems over Cat.v: == is structural equality, equal values hash equally for every string/tuple hash and hashed containers find exactly the == keys, string comparison holds exactly for '
          'the canonical text (unique by show-injectivity), ^ is an equivalence = equal skeletons, strictly coarser than ==, clear_features erases exactly the named features everywhere, idempotent, '
          'no-op when nothing matches. 700k differential pair/text/clear cases per run and an independent oracle incl. real set/dict lookups.',
